@@ -709,39 +709,57 @@ namespace {
   }
 
   /*!
-   * judge a tokenization against the expectation.  The known classes are
-   * applied one after the other to the expectation; the first transformed list
-   * that matches names the known finding, so that everything else in the text
-   * has been verified behind it.
+   * judge a tokenization against the expectation.  When it differs, the
+   * transformations describing the recorded defect classes present in the text
+   * are tried in every combination, smallest first: the first combination that
+   * explains the tokens names the finding (one `check(false, key)` per class of
+   * the combination: a key that is not in the known list is an ordinary
+   * failure), so that everything else in the text has been verified behind it
+   * and a repaired class is never assumed.
    */
   void judge(verif::Case& c, const CxxTokenizer& t, const std::vector<Expected>& exp, const std::string& key,
              const std::string& ctx) {
     std::string what;
     const auto d = diff(t, exp, what);
     if (d.empty()) return;
-    auto cur = exp;
-    auto dcur = d;
-    if (std::any_of(exp.begin(), exp.end(), [](const Expected& e) { return e.arrow_star; })) {
-      cur = splitArrowStar(cur);
-      dcur = diff(t, cur, what);
-      c.check(!dcur.empty(), "C31.operator.arrow_star_split",
-              "'->*' is returned as '->' followed by '*' (everything else as expected): " + d + ctx);
+    struct Known {
+      const char* key;
+      const char* msg;
+      std::vector<Expected> (*transform)(const std::vector<Expected>&);
+    };
+    std::vector<Known> present;
+    if (std::any_of(exp.begin(), exp.end(), [](const Expected& e) { return e.arrow_star; }))
+      present.push_back({"C31.operator.arrow_star_split",
+                         "'->*' is returned as '->' followed by '*' (everything else as expected): ", splitArrowStar});
+    if (std::any_of(exp.begin(), exp.end(), [](const Expected& e) { return e.expf; }))
+      present.push_back({"C31.number.exponent_float_suffix_split",
+                         "a floating literal digits+exponent+f (no '.', no '-') loses its suffix, returned as a separate "
+                         "word (everything else as expected): ",
+                         splitExpFloatSuffix});
+    if (std::any_of(exp.begin(), exp.end(), [](const Expected& e) { return e.kb_shift != 0; }))
+      present.push_back({"C31.offset.after_c_comment_keep_boundaries",
+                         "keepCommentBoundaries: the offsets of the tokens that follow a one-line /* */ comment on its "
+                         "line lack the length of the comment opening (everything else as expected): ",
+                         shiftAfterComments});
+    const unsigned n = static_cast<unsigned>(present.size());
+    for (unsigned size = 1; size <= n; ++size) {
+      for (unsigned mask = 1; mask < (1u << n); ++mask) {
+        if (static_cast<unsigned>(__builtin_popcount(mask)) != size) continue;
+        auto cur = exp;
+        for (unsigned k = 0; k != n; ++k)
+          if (mask & (1u << k)) cur = present[k].transform(cur);
+        std::string w2;
+        if (!diff(t, cur, w2).empty()) continue;
+        // explained by this combination: unknown keys first (ordinary failures)
+        auto& g = verif::Global::get();
+        for (unsigned k = 0; k != n; ++k)
+          if ((mask & (1u << k)) && g.known_keys.count(present[k].key) == 0)
+            c.check(false, present[k].key, present[k].msg + d + ctx);
+        for (unsigned k = 0; k != n; ++k)
+          if (mask & (1u << k)) c.check(false, present[k].key, present[k].msg + d + ctx);
+      }
     }
-    if (std::any_of(exp.begin(), exp.end(), [](const Expected& e) { return e.expf; })) {
-      cur = splitExpFloatSuffix(cur);
-      dcur = diff(t, cur, what);
-      c.check(!dcur.empty(), "C31.number.exponent_float_suffix_split",
-              "a floating literal digits+exponent+f (no '.', no '-') loses its suffix, returned as a separate word "
-              "(everything else as expected): " + d + ctx);
-    }
-    if (std::any_of(exp.begin(), exp.end(), [](const Expected& e) { return e.kb_shift != 0; })) {
-      cur = shiftAfterComments(cur);
-      dcur = diff(t, cur, what);
-      c.check(!dcur.empty(), "C31.offset.after_c_comment_keep_boundaries",
-              "keepCommentBoundaries: the offsets of the tokens that follow a one-line /* */ comment on its line lack "
-              "the length of the comment opening (everything else as expected): " + d + ctx);
-    }
-    c.check(false, key + "." + what, dcur + (dcur == d ? "" : " (known classes already discounted)") + ctx);
+    c.check(false, key + "." + what, d + (present.empty() ? "" : " (not explained by the recorded classes)") + ctx);
   }
 
 }  // namespace
